@@ -2,11 +2,17 @@ package main
 
 import (
 	"crypto/sha256"
+	"encoding/json"
+	"fmt"
+	"os"
+	"strings"
 	"io"
 	"runtime/debug"
 
 	"github.com/mosaicnetworks/babble/src/peers"
 	"github.com/sirupsen/logrus"
+	"verif/harness/ev"
+	"verif/harness/explore"
 )
 
 func discardLogger() *logrus.Entry {
@@ -26,3 +32,65 @@ func stackHere() string { return string(debug.Stack()) }
 func mkHonestPeer(pub string) *peers.Peer { return peers.NewPeer(pub, "addr0", "n0") }
 
 func quietBadger() *logrus.Entry { return discardLogger() }
+
+// attachItem records, in every violation, the work item that produced it, so
+// that `vcheck <ID> --replay <file>` can re-run exactly that item.
+func attachItem(vs []ev.Violation, mode string, raw json.RawMessage) {
+	for i := range vs {
+		if vs[i].Replay == nil {
+			vs[i].Replay = map[string]interface{}{}
+		}
+		vs[i].Replay["worker_mode"] = mode
+		vs[i].Replay["item"] = json.RawMessage(raw)
+	}
+}
+
+// replayFile re-runs the work item stored in a replay file in this process
+// and reports the violations it produces (exit 1 if the recorded key shows up again).
+func replayFile(prop, path string) int {
+	raw, err := os.ReadFile(path)
+	if err != nil {
+		fmt.Fprintln(os.Stderr, "replay:", err)
+		return 2
+	}
+	var v struct {
+		Key    string                     `json:"key"`
+		What   string                     `json:"what"`
+		Replay map[string]json.RawMessage `json:"replay"`
+	}
+	if err := json.Unmarshal(raw, &v); err != nil {
+		fmt.Fprintln(os.Stderr, "replay:", err)
+		return 2
+	}
+	var mode string
+	json.Unmarshal(v.Replay["worker_mode"], &mode)
+	item := v.Replay["item"]
+	if mode == "" || len(item) == 0 {
+		fmt.Println("this replay file carries no work item: the check runs in one process; re-run `./check " + prop + "` to reproduce: " + v.What)
+		return 2
+	}
+	fmt.Printf("replaying %s item %s\n", mode, string(item))
+	out, err := explore.Call(mode, item)
+	if err != nil {
+		fmt.Fprintln(os.Stderr, "replay:", err)
+		return 2
+	}
+	var res struct {
+		Viol []ev.Violation `json:"viol"`
+	}
+	json.Unmarshal(out, &res)
+	code := 0
+	for _, x := range res.Viol {
+		k := x.Key
+		fmt.Printf("reproduced: [%s] %s\n", k, x.What)
+		if strings.HasSuffix(v.Key, k) || k == v.Key {
+			code = 1
+		}
+	}
+	if code == 1 {
+		fmt.Printf("VIOLATION property=%s replay=%s\n", prop, path)
+	} else {
+		fmt.Println("the recorded violation did not reproduce on the current tree")
+	}
+	return code
+}
